@@ -730,6 +730,7 @@ class C04Engine(Engine):
                 [float(r.choice([2_100_000, 3_000_000])) for _ in range(dim)]
         if r.random() < 0.3:
             cfg["pair"]["scale"] = r.choice([8.0, 64.0, 0.125])
+
         if r.random() < 0.15:
             cfg["verbose"] = True
         if r.random() < 0.3:
@@ -832,6 +833,11 @@ class C04Engine(Engine):
             for k in ("weight", "max_coarse", "ls_options", "warm", "verbose", "amg_default"):
                 cfg.pop(k, None)
             dim = len(cfg["shape"])
+        if cfg.get("voxel_int") and max(cfg["voxel_size"]) > 1e5:
+            # densities in units of the (nanometre) voxels, so that fluxes stay O(1): with masses of 1e20 Newton's first
+            # update cancels seven digits (round-off relative to the right-hand side of its own system, judged inside
+            # 'linear-solver precision', DESIGN 4 / 8.22) and would trip the 1e-9 relative tolerance
+            cfg["pair"]["scale"] = 2.0 ** -22
         e = substream(seed, "env")
         env = {"tracemalloc": "real" if e.random() < 0.1 else "stub", "np_seed": e.randint(0, 2**31)}
         if e.random() < 0.5:
